@@ -14,36 +14,67 @@ def rules(t):
         r.site(s)
         if not s.fn.path.endswith(allowed): r.bad(f"{s.fn.path}", s, f"store to connection_status in {short(s.fn.path)}")
     out.append(r)
-    # a2 DOM: non-initial stores dominated by !is_disconnected
-    r = RuleResult("C12.a2", "every non-initial status store is dominated by is_disconnected() == false", floor=3)
+    STATUSES = t.variants_of("remote_connection::RenetConnectionStatus")
+    def status_edges(f):
+        """(edge, set of statuses possible on it) for every switch on the discriminant of self.connection_status in f (status predicates such as
+        is_disconnected() are inlined by the fact loader, so all spellings of the test end up here)"""
+        out_ = []
+        allv = set(STATUSES.values())
+        for br in t.branches(f):
+            if br["kind"] != "discr" or not fmt(br["on"]).endswith("connection_status"): continue
+            listed = set()
+            for v, tgt in br["targets"].items(): out_.append(((br["bb"], tgt), {STATUSES.get(v)})); listed.add(STATUSES.get(v))
+            out_.append(((br["bb"], br["otherwise"]), allv - listed))
+        return out_
+    _status_cache = {}
+    def status_sets(f):
+        """forward may-analysis: statuses possible at the entry of each block (union at joins, narrowed along status-switch edges)"""
+        if f.path in _status_cache: return _status_cache[f.path]
+        allv = frozenset(STATUSES.values())
+        emap = {}
+        for e, vs in status_edges(f): emap[e] = emap.get(e, allv) & frozenset(vs)
+        st = {0: allv}
+        work = [0]
+        while work:
+            b = work.pop()
+            for s_ in f.succ[b]:
+                out_ = st[b] & emap.get((b, s_), allv)
+                new_ = st.get(s_, frozenset()) | out_
+                if new_ != st.get(s_): st[s_] = new_; work.append(s_)
+        _status_cache[f.path] = st
+        return st
+    def alive_at(f, bb):
+        """is Disconnected excluded when block bb runs?"""
+        return "Disconnected" not in status_sets(f).get(bb, frozenset(STATUSES.values()))
+    # a2 DOM: non-initial stores happen only while the status is not Disconnected
+    r = RuleResult("C12.a2", "every non-initial status store happens only while the status is not Disconnected (Disconnected is absorbing)", floor=3)
     for s in t.stores(RC, "connection_status"):
         if s.fn.path.endswith("::from_channels"): continue
         r.site(s)
-        ok = any(t.edge_dominates(s.fn, br["f_edge"], s.bb) for br in t.find_callcond(s.fn, r"RenetClient::is_disconnected$"))
-        if not ok: r.bad(f"{s.fn.path}|store", s, "status store not guarded by !is_disconnected() (Disconnected must be absorbing)")
+        if not alive_at(s.fn, s.bb): r.bad(f"{s.fn.path}|store", s, "connection_status is written on a path where the status may already be Disconnected (a disconnected connection could be revived / lose its first reason)")
     out.append(r)
-    # b gated API: every effect dominated by the false edge of is_disconnected
-    r = RuleResult("C12.b", "send/receive/process/get_packets: every effect is behind the is_disconnected() == false edge", floor=4)
+    # b gated API: every effect happens only while not Disconnected
+    r = RuleResult("C12.b", "send/receive/process/get_packets: every effect happens only while the status is not Disconnected; the Disconnected path is effect free", floor=4)
     for name in ("RenetClient::send_message", "RenetClient::receive_message", "RenetClient::process_packet", "RenetClient::get_packets_to_send"):
         f = t.fn(name)
-        guards = list(t.find_callcond(f, r"RenetClient::is_disconnected$"))
+        se = status_edges(f)
         anchor = Site(f, 0, 0, f.blocks[0]["term"])
-        r.site(anchor, f"{len(guards)} guard(s)")
-        if not guards:
-            r.bad(f"{f.path}|no-guard", anchor, "no is_disconnected() gate"); continue
-        g = guards[0]
+        r.site(anchor, f"{len(se)} status edge(s)")
+        if not se:
+            r.bad(f"{f.path}|no-guard", anchor, "no test of the connection status"); continue
         for s in t.sites(f):
             n = s.node
             eff = None
             if is_log_or_derive(n["span"]): continue
-            if n["k"] == "assign" and any(p["k"] == "deref" for p in n["place"]["proj"]) and n["place"]["local"] == 1: eff = "store through self"
+            if n["k"] == "assign" and any(p["k"] == "deref" for p in n["place"]["proj"]) and t.mentions_param(t.place(s), 1) and not n.get("inl_arg") and not n.get("inl_ret"): eff = "store through self"
             if n["k"] == "call" and n["args"]:
                 a0 = t.arg(s, 0)
-                if isinstance(a0, tuple) and a0[0] == "ref" and t.mentions_param(a0, 1) and re.search(r"(get_mut|insert|remove|push|process_|send_message|receive_message|get_packets_to_send|add_pending_ack|received_packet|sent_packets|acked_)", callee_name(n)) and not callee_name(n).endswith("is_disconnected"):
+                if isinstance(a0, tuple) and a0[0] == "ref" and t.mentions_param(a0, 1) and re.search(r"(get_mut|insert|remove|push|process_|send_message|receive_message|get_packets_to_send|add_pending_ack|received_packet|sent_packets|acked_)", callee_name(n)):
                     eff = f"call {short(callee_name(n))} on self state"
-            if eff and not t.edge_dominates(f, g["f_edge"], s.bb):
+            if eff and not alive_at(f, s.bb):
                 r.bad(f"{f.path}|{eff}", s, f"{eff} reachable while disconnected")
-        if not t.edge_effect_free(f, g["t_edge"]): r.bad(f"{f.path}|true-edge", anchor, "disconnected edge is not effect free")
+        for e, vs in se:
+            if vs == {"Disconnected"} and not t.edge_effect_free(f, e): r.bad(f"{f.path}|true-edge", anchor, "disconnected edge is not effect free")
     out.append(r)
     # c1 connect events
     r = RuleResult("C12.c1", "ClientConnected pushed only after !contains_key(id), together with connections.insert(id)", floor=1)
@@ -51,11 +82,19 @@ def rules(t):
         if "<impl" in s.fn.path or is_log_or_derive(s.node["span"]): continue
         r.site(s)
         f = s.fn
-        ok = any(t.edge_dominates(f, br["f_edge"], s.bb) and t.rooted_at_field(br["cond"][2][0], "connections") for br in t.find_callcond(f, r"::contains_key$"))
+        eid = t.field_of_aggr(s, "client_id")
+        absent, present = map_key_edges(t, f, "connections", lambda k: same(k, eid))
+        ok = any(t.edge_dominates(f, e, s.bb) for e in absent)
         ins = [c for c in t.effects("connections", {"insert"}, f)]
-        if not ok: r.bad(f"{f.path}|guard", s, "ClientConnected event not guarded by !connections.contains_key(id)")
+        if not ok: r.bad(f"{f.path}|guard", s, "ClientConnected event not guarded by the id being absent from connections (contains_key / entry)")
         if not ins: r.bad(f"{f.path}|insert", s, "ClientConnected event without connections.insert")
-        elif not same(t.arg(ins[0], 1), t.field_of_aggr(s, "client_id")): r.bad(f"{f.path}|id", s, "event id differs from inserted key")
+        else:
+            c0 = ins[0]
+            if "VacantEntry" in callee_name(c0.node):
+                # slot.insert(value): the key is the one given to connections.entry(key)
+                keyok = any(same(t.arg(e_, 1), eid) for e_ in t.effects("connections", {"entry"}, f))
+            else: keyok = same(t.arg(c0, 1), eid)
+            if not keyok: r.bad(f"{f.path}|id", s, "event id differs from inserted key")
     out.append(r)
     # c2 disconnect events: Some-edge of connections.remove, reason from the removed connection
     r = RuleResult("C12.c2", "ClientDisconnected pushed only on the Some-edge of connections.remove(id); reason = removed connection's reason", floor=2)
@@ -67,7 +106,8 @@ def rules(t):
         if not rem: r.bad(f"{f.path}|remove", s, "ClientDisconnected without connections.remove"); continue
         if not any(f.dominates(x.bb, s.bb) for x in rem): r.bad(f"{f.path}|dom", s, "event not dominated by the removal")
         reason = t.field_of_aggr(s, "reason")
-        if not (t.mentions_call(reason, r"RenetClient::disconnect_reason$") and t.mentions_call(reason, r"::remove$")):
+        rtxt = fmt(reason)
+        if not ((t.mentions_call(reason, r"RenetClient::disconnect_reason$") or "connection_status" in rtxt) and t.mentions_call(reason, r"::remove$")):
             r.bad(f"{f.path}|reason", s, f"reason is not the removed connection's first reason: {fmt(reason)[:80]}")
         if not same(t.arg(rem[0], 1), t.field_of_aggr(s, "client_id")): r.bad(f"{f.path}|id", s, "event id differs from removed key")
     out.append(r)
